@@ -1,5 +1,5 @@
 import DiscretModel.Lemmas.LocalWriteFixtures
-import DiscretModel.Lemmas.RoomBuild
+import DiscretModel.Lemmas.RoomImport
 /-
 C01 — Local writes are applied only with the room's rights at that time.
 
@@ -207,6 +207,33 @@ theorem C01_room_mutation_admins {df : RoomBuild.Defects} {mem : Option Room} {c
           cases h
           rw [hneed] at hc
           simpa using hc
+
+open Discret.RoomBuild in
+/-- **C01 (room mutation, groups of other rooms).** A `sys.Authorisation` entity named by id inside a mutation of a
+    room — an existing row — that is not one of THAT room's groups (the group of another room, for instance) makes
+    `validate_authorisation_mutation` refuse the mutation (`NotBelongsTo`), whoever the caller is. -/
+theorem C01_room_mutation_foreign_group {df : RoomBuild.Defects} {caller : Key} {d : Int} {room : Room} {g : GroupSpec}
+    (hold : g.isNew = false) (habs : room.getAuth g.gid = none) :
+    validateGroup df caller d room g = .error .notBelongs :=
+  validateGroup_foreign hold habs
+
+open Discret.RoomBuild in
+/-- **C01 (room mutation, only the mutated room's groups).** Every group an ACCEPTED room mutation names as an existing
+    one is a group of the room being mutated (as it stands when the group is reached), or a group created earlier in
+    the same mutation: no entry is ever hung under the group of another room. -/
+theorem C01_room_mutation_groups_belong {df : RoomBuild.Defects} {caller : Key} {d : Int} {gs : List GroupSpec}
+    {r r' : Room} {need need' : Bool} (h : validateGroups df caller d r need gs = .ok (r', need')) :
+    ∀ g ∈ gs, g.isNew = false → (r.getAuth g.gid).isSome = true ∨ ∃ g' ∈ gs, g'.isNew = true ∧ g'.gid = g.gid :=
+  validateGroups_belongs h
+
+open Discret.RoomBuild in
+/-- **C01 (room mutation, other rooms untouched).** An accepted mutation of room `m.rid` changes neither the stored
+    definition nor the in-memory definition of any OTHER room of the instance: the definition of a room changes only
+    through a mutation of that room — whose caller is one of its admins (`C01_room_mutation_existing`). -/
+theorem C01_room_mutation_other_rooms {df : RoomBuild.Defects} {s s' : Site} (hi : SiteInv s) {caller : Key} {n : Nat}
+    {m : MutSpec} (h : s.mutate df caller n m = .ok s') {rid : Id} (hne : rid ≠ m.rid) :
+    s'.getStored rid = s.getStored rid ∧ s'.getMem rid = s.getMem rid :=
+  mutate_other_rooms hi h hne
 
 /-! ### non-vacuity: a concrete instance with rooms, members of every kind and rows -/
 
